@@ -1,15 +1,18 @@
 #!/bin/sh
 # Re-records expected obligation names and solver hints for every claimed property
 # (run after any change to contracts or engine, before committing).
-# Works on a frozen copy of the engine binary and a scratch worktree of /repo's HEAD, so that
-# editing may go on while it runs; commit contract changes in /repo first.
+# Works on frozen copies of the engine binary and of the /verif files it reads, and on a scratch worktree of
+# /repo's HEAD, so that editing may go on while it runs; commit contract changes in /repo first.
 cd "$(dirname "$0")/.." || exit 2
 WT=$(mktemp -d /tmp/gvc-refresh-XXXXXX); rmdir "$WT"
 BIN=$(mktemp /tmp/gvc-frozen-XXXXXX)
+FV=$(mktemp -d /tmp/gvc-frozen-verif-XXXXXX)
 cp bin/gvc "$BIN"; chmod 755 "$BIN"
+cp -r trusted known_findings.txt stretch.txt expected_obligations.json solver_hints.json prop_notes.json MANIFEST.json properties.jsonl "$FV"/ 2>/dev/null
 git -C /repo worktree add -q --detach "$WT" HEAD || exit 2
 for p in $(python3 -c "import json;print(' '.join(c['property_id'] for c in json.load(open('MANIFEST.json'))['checks']))"); do
-  "$BIN" check -repo "$WT" -update-expected -no-evidence "$p" | grep -v '^  \|^KNOWN' | tail -3
+  "$BIN" check -repo "$WT" -verif "$FV" -update-expected -no-evidence "$p" | grep -v '^  \|^KNOWN' | tail -3
 done
+cp "$FV"/expected_obligations.json "$FV"/solver_hints.json .
 git -C /repo worktree remove --force "$WT"
-rm -rf "$WT" "$BIN"
+rm -rf "$WT" "$BIN" "$FV"
